@@ -91,6 +91,20 @@ Theorem C15_transient_close_independent :
 Proof. exact close_independent. Qed.
 Print Assumptions C15_transient_close_independent.
 
+(** The same for the weaker, decidable [key_disjoint] (covers "" / "a" and "a" / "a/b"): the other
+    cassette's recordings are untouched. *)
+Theorem C15_transient_close_key_disjoint :
+  forall c c' st k,
+    key_disjoint c c' = true -> is_recording_key c' k = true ->
+    b_get k (objs (s3_close c st)) = b_get k (objs st).
+Proof. exact close_key_disjoint. Qed.
+Print Assumptions C15_transient_close_key_disjoint.
+
+Theorem C15_independent_is_key_disjoint :
+  forall c c', independent c c' -> key_disjoint c c' = true.
+Proof. exact independent_key_disjoint. Qed.
+Print Assumptions C15_independent_is_key_disjoint.
+
 (** Closing a read-only or a non-transient cassette does nothing at all. *)
 Theorem C15_close_noop :
   forall c st, c_read_only c = true \/ c_transient c = false -> s3_close c st = st.
@@ -102,8 +116,10 @@ Print Assumptions C15_close_noop.
     EVERY bucket state that exists during the history: after each single bucket mutation of each
     save (i.e. whatever mutation a crash follows), and at the end — for all histories of calls by
     any cassettes in which saves (of recordings in the serializer's faithful domain; re-saving an
-    id included) are made on [c]'s prefix or on an independent one, and [c]'s own key space is not
-    being cleaned up (close of a writable transient cassette — excluded by the property). *)
+    id included) are made on [c]'s prefix or on a key-disjoint one ([key_disjoint]: decidable; holds
+    for independent prefixes and also for "" / "a" and "a" / "a/b", fails only when one prefix
+    continues the other with a component named full or metadata, e.g. "a" / "a/full"), and [c]'s own
+    key space is not being cleaned up (close of a writable transient cassette — excluded by the property). *)
 Theorem C15_discoverable_complete :
   forall qp qp_dec loads compress decompress,
     (forall b, qp_dec (qp b) = b) -> (forall j, loads (dumps j) = Some j) ->
@@ -111,8 +127,8 @@ Theorem C15_discoverable_complete :
     forall c h st,
       Forall (fun ck =>
         match snd ck with
-        | CSave r _ | CSaveCrash r _ _ => rec_wf r = true /\ (np (fst ck) = np c \/ independent c (fst ck))
-        | CClose | CExit => c_read_only (fst ck) = true \/ c_transient (fst ck) = false \/ independent c (fst ck)
+        | CSave r _ | CSaveCrash r _ _ => rec_wf r = true /\ (np (fst ck) = np c \/ key_disjoint c (fst ck) = true)
+        | CClose | CExit => c_read_only (fst ck) = true \/ c_transient (fst ck) = false \/ key_disjoint c (fst ck) = true
         | _ => True
         end) h ->
       discoverable_complete qp_dec loads decompress c (objs st) ->
@@ -143,20 +159,23 @@ Definition ex_states := all_states qp_simple qp_dec_simple loads (fun b => b) (f
 
 Example C15_example_premises :
   independent ex_cA ex_cAB /\ prefixb (c_prefix ex_cA) (c_prefix ex_cAB) = true /\
+  key_disjoint (Cfg (U"") false true) ex_cA = true /\ key_disjoint ex_cA (Cfg (U"a/b") false true) = true /\
+  key_disjoint ex_cA (Cfg (U"a/full") false true) = false /\
   rec_wf ex_r1 = true /\ rec_wf ex_r2 = true /\
   Forall (fun ck =>
         match snd ck with
-        | CSave r _ | CSaveCrash r _ _ => rec_wf r = true /\ (np (fst ck) = np ex_roAB \/ independent ex_roAB (fst ck))
-        | CClose | CExit => c_read_only (fst ck) = true \/ c_transient (fst ck) = false \/ independent ex_roAB (fst ck)
+        | CSave r _ | CSaveCrash r _ _ => rec_wf r = true /\ (np (fst ck) = np ex_roAB \/ key_disjoint ex_roAB (fst ck) = true)
+        | CClose | CExit => c_read_only (fst ck) = true \/ c_transient (fst ck) = false \/ key_disjoint ex_roAB (fst ck) = true
         | _ => True
         end) ex_h /\
   discoverable_complete qp_dec_simple loads (fun b => Some b) ex_roAB (objs ex_st0).
 Proof.
   assert (I : independent ex_cA ex_cAB) by (split; vm_compute; reflexivity).
-  assert (I' : independent ex_roAB ex_cA) by (split; vm_compute; reflexivity).
-  assert (I'' : independent ex_roAB ex_roA) by (split; vm_compute; reflexivity).
+  assert (I' : key_disjoint ex_roAB ex_cA = true) by (vm_compute; reflexivity).
+  assert (I'' : key_disjoint ex_roAB ex_roA = true) by (vm_compute; reflexivity).
   split; [exact I|]. split; [vm_compute; reflexivity|]. split; [vm_compute; reflexivity|].
-  split; [vm_compute; reflexivity|]. split.
+  split; [vm_compute; reflexivity|]. split; [vm_compute; reflexivity|].
+  split; [vm_compute; reflexivity|]. split; [vm_compute; reflexivity|]. split.
   - unfold ex_h. repeat (apply Forall_cons; [cbn [snd fst]; auto; try (split; [vm_compute; reflexivity|auto])|]).
     apply Forall_nil.
   - apply dc_no_metadata. intros id. unfold b_has, ex_st0. cbn [objs b_get].
